@@ -432,4 +432,21 @@ theorem autoname_absorbs_duplicate_with_minted_name :
 
 end Examples
 
+/-! ## F130 (2c333b7): a declared type with methods shares a function only with itself -/
+
+/-- On the concrete type relation, a type with declared methods is served by the function of another type
+exactly when the two are identical: the assignability of a named type and its unnamed twin no longer counts. -/
+theorem serves_hasMethods_iff_identical (a b : GTy) (h : a.hasMethods = true ∨ b.hasMethods = true) :
+    GTy.rel.asg a b = (a == b) := by
+  show GTy.assignable a b = (a == b)
+  unfold GTy.assignable
+  rcases h with h | h <;> simp [h]
+
+/-- the witness of F130: `Key` (with an Equal method) and `struct{ID int; Note []string}` are two argument types,
+while the method-free `Ints` and `[]int` still share a function -/
+example :
+    let u : GTy := .struct (.fcons (.basic (asc "int")) (.fcons (.slice (.basic (asc "string"))) .fnil))
+    GTy.rel.asg (.namedM 0 (asc "Key") u) u = false ∧ GTy.rel.asg u (.namedM 0 (asc "Key") u) = false ∧
+    GTy.rel.asg (.named 0 (asc "Ints") (.slice (.basic (asc "int")))) (.slice (.basic (asc "int"))) = true := by decide
+
 end Goderive.C11
